@@ -25,7 +25,21 @@
 (*                     exactly (maybe = {})                                 *)
 (* cos(pi/n) is a CONSTANT table of lower bounds in per cent (CosLB).       *)
 (* SHARP convex polygons (acute corners, where the miter limit acts) get    *)
-(* the generic clauses with exact rational point-segment distances.         *)
+(* the generic clauses with exact rational point-segment distances, and for *)
+(* Round, delta > 0, also the inner clause (closer than delta*cos(pi/n)).   *)
+(*                                                                          *)
+(* CORNER ANGLES: a family of simple polygons in integer coordinates whose  *)
+(* corners cover the angle classes of the statement (convex / reflex, each  *)
+(* below 30, 30..90 and above 90 degrees, collinear), classified by exact   *)
+(* integer cross / dot products; each is placed by similarity transforms    *)
+(* (Pythagorean rotations, mirror), as a solid and as a hole in a box, and  *)
+(* offset by both signs of delta with several segment counts.  The rule is  *)
+(* the statement itself: a point closer than |delta|*cos(pi/n) to S must be *)
+(* covered by the dilation of S, a point farther than |delta| must not      *)
+(* (S = the region for delta > 0, its complement for delta < 0); cos(pi/n)  *)
+(* is a table of lower bounds in 1/10000 whose entries TLC ties together by *)
+(* the double-angle identity.  The distances of the probe points (on rays   *)
+(* around every corner and beside every edge) are measured by the driver.   *)
 (*                                                                          *)
 (* HULL of a finite lattice point set: supporting edges in exact integer    *)
 (* cross products, cyclic counter-clockwise vertex sequence, twice the area;*)
@@ -182,15 +196,20 @@ SharpVariants ==
   << [jt |-> "Miter", ml10 |-> 20, seg |-> 0], [jt |-> "Miter", ml10 |-> 30, seg |-> 0],
      [jt |-> "Miter", ml10 |-> 50, seg |-> 0], [jt |-> "Miter", ml10 |-> 100, seg |-> 0],
      [jt |-> "Round", ml10 |-> 20, seg |-> 8], [jt |-> "Square", ml10 |-> 20, seg |-> 0],
-     [jt |-> "Bevel", ml10 |-> 20, seg |-> 0] >>
+     [jt |-> "Bevel", ml10 |-> 20, seg |-> 0],
+     [jt |-> "Round", ml10 |-> 20, seg |-> 16], [jt |-> "Round", ml10 |-> 20, seg |-> 5] >>
 (* bd = [p |-> BoundaryD2(c, p)]; farther than bound/10 * |d| : f[1]/f[2] > 4 d^2 bound^2 / 100 *)
 SharpDemand(bd, A, d, v) ==
   LET bound == IF v.jt = "Round" THEN 10 ELSE v.ml10       \* in tenths of |delta|
       rn == 4 * d * d * bound * bound
       farOut == { p \in Pix(0) \ A : bd[p][1] * 100 > rn * bd[p][2] }
       farIn  == { p \in A : bd[p][1] * 100 > rn * bd[p][2] }
+      \* Round, d > 0: centres closer than d*cos(pi/n) to the polygon are covered (the floor only shrinks the set)
+      nearOut == IF v.jt = "Round" /\ d > 0
+                 THEN { p \in Pix(0) \ A : bd[p][1] < (bd[p][2] * 4 * d * d * CosLB(v.seg) * CosLB(v.seg)) \div 10000 }
+                 ELSE {}
   IN IF d = 0 THEN [d |-> 0, in |-> A, out |-> Pix(0) \ A]
-     ELSE IF d > 0 THEN [d |-> d, in |-> A, out |-> farOut]
+     ELSE IF d > 0 THEN [d |-> d, in |-> A \cup nearOut, out |-> farOut]
      ELSE [d |-> d, in |-> farIn, out |-> Pix(0) \ A]
 SharpTables(c) == [A |-> XS(0)!Fill("Positive", <<c>>), bd |-> [p \in Pix(0) |-> BoundaryD2(c, p)]]
 SharpFacts(c, T) ==
@@ -304,6 +323,147 @@ SimpFams == {"s_sub", "s_subq", "s_wob", "s_wob2", "s_stair"}
 SimpFacts(x) == LET ref == RefSimplify(x[1], x[2][1], x[2][2]) IN
   [kind |-> "simp", ring |-> x[1], tn |-> x[2][1], td |-> x[2][2], ref |-> ref, nrem |-> Len(x[1]) - Len(ref)]
 
+(* ======================== corner angles ================================== *)
+(* Simple counter-clockwise polygons in integer coordinates.  The angle at a vertex V between the edges towards *)
+(* its neighbours P and N is the interior angle of the solid at a convex corner and the interior angle of the   *)
+(* COMPLEMENT at a reflex corner (a notch): these are the corners that Offset rounds for delta > 0 / delta < 0.  *)
+Needle(L, h)  == << <<0, -h>>, <<L, 0>>, <<0, h>> >>                       \* isosceles, tip 2 atan(h/L)
+RNeedle(L, h) == << <<0, 0>>, <<L, 0>>, <<0, h>> >>                        \* right-angled, tip atan(h/L)
+Spiked(L)  == << <<0,0>>, <<10,0>>, <<10,4>>, <<10 + L,5>>, <<10,6>>, <<10,10>>, <<0,10>> >>      \* spike on a body
+Notched(L) == << <<0,0>>, <<L + 6,0>>, <<L + 6,4>>, <<6,5>>, <<L + 6,6>>, <<L + 6,10>>, <<0,10>> >>  \* V-notch cut into a body
+Saw(L) == << <<0,-6>>, <<8,-6>>, <<8,0>>, <<7,L>>, <<6,0>>, <<5,L>>, <<4,0>>, <<3,L>>, <<2,0>>, <<1,L>>, <<0,0>> >>  \* teeth and notches of equal angle
+Star(R, r) == << <<R,0>>, <<r,r>>, <<0,R>>, <<-r,r>>, <<-R,0>>, <<-r,-r>>, <<0,-R>>, <<r,-r>> >>
+CornerPolys ==
+  << [name |-> "needle2",    c |-> Needle(57, 1)],   [name |-> "needle6",   c |-> Needle(19, 1)],
+     [name |-> "needle11",   c |-> Needle(10, 1)],   [name |-> "needle23",  c |-> Needle(10, 2)],
+     [name |-> "needle28",   c |-> Needle(8, 2)],    [name |-> "needle29.9", c |-> Needle(15, 4)],
+     [name |-> "needle30.5", c |-> Needle(11, 3)],   [name |-> "needle37",  c |-> Needle(9, 3)],
+     [name |-> "needle53",   c |-> Needle(8, 4)],    [name |-> "needle67",  c |-> Needle(9, 6)],
+     [name |-> "needle90",   c |-> Needle(6, 6)],    [name |-> "needle127", c |-> Needle(4, 8)],
+     [name |-> "needle152",  c |-> Needle(3, 12)],
+     [name |-> "rneedle1",   c |-> RNeedle(57, 1)],  [name |-> "rneedle5.7", c |-> RNeedle(20, 2)],
+     [name |-> "rneedle17",  c |-> RNeedle(10, 3)],  [name |-> "rneedle26.6", c |-> RNeedle(10, 5)],
+     [name |-> "rneedle29.7", c |-> RNeedle(14, 8)], [name |-> "rneedle30.3", c |-> RNeedle(12, 7)],
+     [name |-> "spiked28",   c |-> Spiked(4)],       [name |-> "spiked11",  c |-> Spiked(10)],
+     [name |-> "spiked5.7",  c |-> Spiked(20)],
+     [name |-> "notched90",  c |-> Notched(1)],      [name |-> "notched53", c |-> Notched(2)],
+     [name |-> "notched28",  c |-> Notched(4)],      [name |-> "notched11", c |-> Notched(10)],
+     [name |-> "notched5.7", c |-> Notched(20)],
+     [name |-> "saw53",      c |-> Saw(2)],          [name |-> "saw28",     c |-> Saw(4)],
+     [name |-> "saw14",      c |-> Saw(8)],
+     [name |-> "star23",     c |-> Star(12, 2)],     [name |-> "star37",    c |-> Star(12, 3)],
+     [name |-> "octagon",    c |-> << <<4,0>>, <<8,0>>, <<12,4>>, <<12,8>>, <<8,12>>, <<4,12>>, <<0,8>>, <<0,4>> >>],
+     [name |-> "hexagon",    c |-> << <<2,0>>, <<6,0>>, <<8,3>>, <<6,6>>, <<2,6>>, <<0,3>> >>],
+     [name |-> "roof176",    c |-> << <<0,0>>, <<60,0>>, <<60,10>>, <<30,11>>, <<0,10>> >>],
+     [name |-> "dent184",    c |-> << <<0,0>>, <<60,0>>, <<60,10>>, <<30,9>>, <<0,10>> >>],
+     [name |-> "collinear",  c |-> << <<0,0>>, <<5,0>>, <<10,0>>, <<10,4>>, <<10,8>>, <<5,8>>, <<0,8>>, <<0,3>> >>],
+     [name |-> "ell",        c |-> << <<0,0>>, <<10,0>>, <<10,4>>, <<4,4>>, <<4,10>>, <<0,10>> >>] >>
+
+Len2(a) == Dot2(a, a)
+(* class of corner i: exact; "lt30" <=> cos > sqrt(3)/2 <=> dot > 0 /\ 4 dot^2 > 3 |a|^2 |b|^2 *)
+CornerClass(c, i) ==
+  LET P == CPrev(c, i)  V == c[i]  N == XS(0)!NextV(c, i)
+      a == Sub2(P, V)  b == Sub2(N, V)
+      cr == Cr(P, V, N)
+      dt == Dot2(a, b)
+      ang == IF dt < 0 THEN "gt90" ELSE IF 4 * dt * dt > 3 * Len2(a) * Len2(b) THEN "lt30" ELSE "30to90"
+  IN IF cr = 0 THEN (IF dt < 0 THEN "collinear" ELSE "reversal")
+     ELSE (IF cr > 0 THEN "convex_" ELSE "reflex_") \o ang
+CornerClasses(c) == [i \in 1..Len(c) |-> CornerClass(c, i)]
+RequiredClasses == { "convex_lt30", "convex_30to90", "convex_gt90", "reflex_lt30", "reflex_30to90", "reflex_gt90", "collinear" }
+(* closed segments a-b and c-d have a point in common *)
+Sgn(x) == IF x > 0 THEN 1 ELSE IF x < 0 THEN -1 ELSE 0
+SegsMeet(a, b, c, d) ==
+  \/ (Sgn(Cr(a, b, c)) * Sgn(Cr(a, b, d)) < 0 /\ Sgn(Cr(c, d, a)) * Sgn(Cr(c, d, b)) < 0)
+  \/ XS(0)!OnSeg(a, b, c) \/ XS(0)!OnSeg(a, b, d) \/ XS(0)!OnSeg(c, d, a) \/ XS(0)!OnSeg(c, d, b)
+SimpleCCW(c) ==
+  /\ Len(c) >= 3 /\ Area2(c) > 0
+  /\ \A i \in 1..Len(c) : CornerClass(c, i) # "reversal" /\ c[i] # XS(0)!NextV(c, i)
+  /\ \A i \in 1..Len(c), j \in 1..Len(c) :
+        (i < j /\ j # i + 1 /\ ~(i = 1 /\ j = Len(c))) => ~SegsMeet(c[i], XS(0)!NextV(c, i), c[j], XS(0)!NextV(c, j))
+
+(* similarity transforms: optional mirror x -> -x (vertex order reversed), then the rotation (a -b; b a) / s with *)
+(* a^2 + b^2 = s^2 (a Pythagorean triple: the driver divides by s, distances and angles are those of the model)   *)
+CornerRot == << <<1,0,1>>, <<0,1,1>>, <<3,4,5>>, <<-5,12,13>>, <<-15,-8,17>>, <<20,-21,29>> >>
+
+(* lower bounds of 10000*cos(pi/n) *)
+CosLB4(n) == CASE n = 3 -> 5000 [] n = 4 -> 7071 [] n = 5 -> 8090 [] n = 6 -> 8660 [] n = 8 -> 9238 [] n = 12 -> 9659
+               [] n = 16 -> 9807 [] n = 32 -> 9951 [] n = 64 -> 9987 [] OTHER -> 0
+CosDoubling == { <<3,6>>, <<6,12>>, <<4,8>>, <<8,16>>, <<16,32>>, <<32,64>> }
+(* every entry c is floor(10000 cos(pi/n)): exact anchors for n = 3, 4, 5 (cos 36 = (1 + sqrt 5)/4) and           *)
+(* cos(pi/n) = 2 cos(pi/2n)^2 - 1 for the rest; in particular no entry exceeds the true value                    *)
+CosTableSound ==
+  /\ CosLB4(3) = 5000
+  /\ 2 * CosLB4(4) * CosLB4(4) <= 100000000 /\ 2 * (CosLB4(4) + 1) * (CosLB4(4) + 1) > 100000000
+  /\ LET x == 4 * CosLB4(5) - 10000 IN x * x <= 500000000 /\ (x + 4) * (x + 4) > 500000000
+  /\ \A p \in CosDoubling :
+        /\ 2 * CosLB4(p[2]) * CosLB4(p[2]) - 100000000 < 10000 * (CosLB4(p[1]) + 1)
+        /\ 2 * (CosLB4(p[2]) + 1) * (CosLB4(p[2]) + 1) - 100000000 > 10000 * CosLB4(p[1])
+(* Quality::GetCircularSegments(r) with the library's defaults (minimum angle 10 degrees, minimum edge length 1): *)
+(* min(36, 2 pi r) + 3 rounded down to a multiple of 4, at least 4 -- for the radii used here                    *)
+DefaultSeg(dn, dd) == CASE Abs(dn) * 4 <= 2 * dd -> 4   \* r <= 1/2 : 2 pi r + 3 < 8
+                        [] Abs(dn) = dd -> 8            \* r = 1   : 9.28
+                        [] Abs(dn) = 2 * dd -> 12       \* r = 2   : 15.57
+                        [] OTHER -> 0
+SegOf(seg, dn, dd) == IF seg >= 3 THEN seg ELSE DefaultSeg(dn, dd)
+
+(* does the offset leave something of the contour?  (a contour that must vanish entirely is the known double-    *)
+(* inversion defect's territory, judged on the lattice families.)  q, contour in DOUBLED coordinates: q is       *)
+(* strictly inside and farther than |dn/dd| from every edge:  num/den > 4 dn^2/dd^2                               *)
+Dbl(c) == [i \in 1..Len(c) |-> << 2 * c[i][1], 2 * c[i][2] >>]
+ClearAt(c2, q, dn, dd) ==
+  /\ \A i \in 1..Len(c2) : LET f == SegD2(q, c2[i], XS(0)!NextV(c2, i)) IN f[1] * dd * dd > 4 * dn * dn * f[2]
+  /\ XS(0)!WindCX(c2, q) = 1
+BBox(c) == LET xs == { c[i][1] : i \in 1..Len(c) }  ys == { c[i][2] : i \in 1..Len(c) } IN << Min(xs), Min(ys), Max(xs), Max(ys) >>
+Survives(c, dn, dd) == LET b == BBox(c)  c2 == Dbl(c) IN
+  \E x \in (2 * b[1] + 1)..(2 * b[3] - 1), y \in (2 * b[2] + 1)..(2 * b[4] - 1) :
+     ClearAt(c2, <<x, y>>, dn, dd)
+CornerGrow   == << <<1,2>>, <<1,1>>, <<2,1>> >>      \* |delta| that enlarges the polygon's side
+CornerShrink == << <<1,4>>, <<1,2>>, <<1,1>> >>      \* |delta| that shrinks the polygon: only those that it survives
+CornerSegs == << 3, 4, 5, 6, 8, 12, 16, 32, 64, 0 >>
+(* deltas of a case: hole = 0: the polygon is the solid; hole = 1: it is a hole in a box 4 wider than its bounding box *)
+(* (computed by a step of its own, CornerTables, so that TLC holds the result as a value) *)
+CornerDeltas(c, hole) ==
+  LET sh == SelectSeq(CornerShrink, LAMBDA d : Survives(c, d[1], d[2]))
+      sg == IF hole = 0 THEN 1 ELSE -1
+  IN [k \in 1..Len(CornerGrow) |-> << sg * CornerGrow[k][1], CornerGrow[k][2] >>] \o
+     [k \in 1..Len(sh) |-> << -sg * sh[k][1], sh[k][2] >>]
+CornerTables(x) == [ds |-> CornerDeltas(CornerPolys[x[1]].c, x[4])]
+(* all (join, delta, segments) of a case, then thinned: variant j is kept iff (j + polygon number + phase) % thin = 0 *)
+CornerVariantsAll(ds) ==
+  LET rnd == [k \in 1..(Len(ds) * Len(CornerSegs)) |->
+                LET d == ds[((k - 1) \div Len(CornerSegs)) + 1]  sg == CornerSegs[((k - 1) % Len(CornerSegs)) + 1]
+                IN [jt |-> "Round", ml10 |-> 20, seg |-> sg, n |-> SegOf(sg, d[1], d[2]), cos4 |-> CosLB4(SegOf(sg, d[1], d[2])),
+                    dn |-> d[1], dd |-> d[2]]]
+      oth == << "Miter", "Miter", "Square", "Bevel" >>
+      oml == << 20, 50, 20, 20 >>
+      gen == [k \in 1..(Len(ds) * 4) |->
+                LET d == ds[((k - 1) \div 4) + 1]  j == ((k - 1) % 4) + 1
+                IN [jt |-> oth[j], ml10 |-> oml[j], seg |-> 0, n |-> 0, cos4 |-> 10000, dn |-> d[1], dd |-> d[2]]]
+  IN rnd \o gen
+Thin(sq, cn, thin) == LET idx == { j \in 1..Len(sq) : (j + cn) % thin = 0 } IN
+                      [k \in 1..Cardinality(idx) |-> sq[CHOOSE j \in idx : Cardinality({ i \in idx : i < j }) = k - 1]]
+(* the cases: <<polygon, rotation, mirror, hole, thin, phase>> *)
+CornerCases(fam) ==
+  CASE fam = "corner_q" ->   \* per polygon: two placements as a solid, one as a hole; a third of the variants each
+         UNION { { << pi, (pi % 6) + 1, pi % 2, 0, 3, 0 >>, << pi, ((pi + 2) % 6) + 1, (pi + 1) % 2, 0, 3, 1 >>,
+                   << pi, ((pi + 3) % 6) + 1, (pi + 1) % 2, 1, 3, 2 >> } : pi \in 1..Len(CornerPolys) }
+    [] fam = "corner_t" -> { << pi, ri, mi, ho, 2, (ri + mi) % 2 >> :
+                               pi \in 1..Len(CornerPolys), ri \in 1..Len(CornerRot), mi \in {0, 1}, ho \in {0, 1} }
+    [] OTHER -> {}
+CornerFams == {"corner_q", "corner_t"}
+CornerFacts(x, T) ==
+  LET p == CornerPolys[x[1]]  c == p.c  b == BBox(c)
+      all == CornerVariantsAll(T.ds)
+  IN [kind |-> "corner", name |-> p.name, c |-> c, rot |-> CornerRot[x[2]], mirror |-> x[3], hole |-> x[4],
+      box |-> << b[1] - 4, b[2] - 4, b[3] + 4, b[4] + 4 >>, cls |-> CornerClasses(c),
+      ds |-> T.ds, nall |-> Len(all), vars |-> Thin(all, x[1] + x[6], x[5]),
+      rays |-> 180, epts |-> 5, mppm |-> 1]
+(* one more state per family: what the enumerated polygons cover *)
+CornerCoverFacts(fam) ==
+  [kind |-> "cornercov", fam |-> fam, polys |-> { x[1] : x \in CornerCases(fam) },
+   classes |-> UNION { { CornerClass(CornerPolys[x[1]].c, i) : i \in 1..Len(CornerPolys[x[1]].c) } : x \in CornerCases(fam) }]
+
 (* ======================== cases ========================================== *)
 VARIABLES cs, done      \* done: 0 = raw case, 1 = tables computed, 2 = facts computed and printed
 vars == << cs, done >>
@@ -316,7 +476,10 @@ Init ==
        \/ /\ fam = "sharp" /\ \E c \in SharpSet : cs = [kind |-> "sharp", in |-> c]
        \/ /\ fam \in HullFams /\ \E P \in HullCases(fam) : cs = [kind |-> "hull", in |-> P]
        \/ /\ fam \in SimpFams /\ \E x \in SimpCases(fam) : cs = [kind |-> "simp", in |-> x]
-Tables == CASE cs.kind = "off" -> OffTables(cs.in) [] cs.kind = "sharp" -> SharpTables(cs.in) [] OTHER -> << >>
+       \/ /\ fam \in CornerFams /\ \E x \in CornerCases(fam) : cs = [kind |-> "corner", in |-> x]
+       \/ /\ fam \in CornerFams /\ cs = [kind |-> "cornercov", in |-> fam]
+Tables == CASE cs.kind = "off" -> OffTables(cs.in) [] cs.kind = "sharp" -> SharpTables(cs.in)
+            [] cs.kind = "corner" -> CornerTables(cs.in) [] OTHER -> << >>
 Computed ==
   CASE cs.kind = "off"   -> OffFacts(cs.in, cs.T)
     [] cs.kind = "dec"   -> DecFacts(cs.in)
@@ -324,6 +487,8 @@ Computed ==
     [] cs.kind = "sharp" -> SharpFacts(cs.in, cs.T)
     [] cs.kind = "hull"  -> HullFacts(cs.in)
     [] cs.kind = "simp"  -> SimpFacts(cs.in)
+    [] cs.kind = "corner" -> CornerFacts(cs.in, cs.T)
+    [] cs.kind = "cornercov" -> CornerCoverFacts(cs.in)
 (* what is printed: `maybe` instead of `out` (it is small) *)
 DsOut(ds) == [k \in 1..Len(ds) |-> [d |-> ds[k].d, in |-> Enc(ds[k].in),
                                     maybe |-> Enc(Pix(0) \ (ds[k].in \cup ds[k].out))]]
@@ -336,6 +501,8 @@ Emitted(x) ==
     [] x.kind = "hull"  -> [kind |-> "hull", pts |-> x.pts, hull |-> x.hull, area2 |-> x.area2]
     [] x.kind = "hullx" -> [kind |-> "hullx", rects |-> x.rects, pts |-> x.pts, hull |-> x.hull, area2 |-> x.area2]
     [] x.kind = "simp"  -> [kind |-> "simp", ring |-> x.ring, tn |-> x.tn, td |-> x.td, ref |-> x.ref, nrem |-> x.nrem]
+    [] x.kind = "corner" -> x
+    [] x.kind = "cornercov" -> [kind |-> "cornercov", fam |-> x.fam, npolys |-> Cardinality(x.polys), classes |-> x.classes]
 Step1 == done = 0 /\ done' = 1 /\ cs' = [kind |-> cs.kind, in |-> cs.in, T |-> Tables]
 Step2 == /\ done = 1 /\ done' = 2 /\ cs' = Computed
          /\ (Emit => PrintT(<<"BEH", ToJson(Emitted(cs'))>>))
@@ -407,4 +574,23 @@ SimpSound == IsK("simp") =>
   /\ (cs.nrem > 0 => ~NoCloseVertex(cs.ring, cs.tn, cs.td))
   /\ (Len(cs.ref) > 3 => ~SimplifyOK(cs.ring, Reverse(cs.ref), cs.tn, cs.td))
   /\ ~CyclicSubseq(cs.ring, Append(cs.ref, <<99, 99>>))
+(* corner family: simple counter-clockwise polygons, no degenerate corner, the rotations are similarities, every   *)
+(* delta that shrinks the polygon leaves something of it, every Round variant has a segment count and a cosine      *)
+(* bound; the family as a whole covers every angle class                                                            *)
+CornerSound == IsK("corner") =>
+  /\ SimpleCCW(cs.c)
+  /\ cs.rot[1] * cs.rot[1] + cs.rot[2] * cs.rot[2] = cs.rot[3] * cs.rot[3] /\ cs.rot[3] > 0
+  /\ \A i \in 1..Len(cs.cls) : cs.cls[i] \in RequiredClasses
+  /\ Len(cs.vars) > 0 /\ 3 * Len(cs.vars) + 3 > cs.nall
+  /\ \E k \in 1..Len(cs.vars) : cs.vars[k].dn > 0
+  /\ \E k \in 1..Len(cs.vars) : cs.vars[k].dn < 0
+  /\ \A k \in 1..Len(cs.vars) : LET v == cs.vars[k] IN
+        /\ v.dd > 0 /\ v.dn # 0
+        /\ (v.jt = "Round" => v.n >= 3 /\ v.cos4 = CosLB4(v.n) /\ v.cos4 >= 5000 /\ v.cos4 < 10000)
+        /\ \E j \in 1..Len(cs.ds) : cs.ds[j] = << v.dn, v.dd >>
+  /\ \A j \in 1..Len(cs.ds) : (IF cs.hole = 0 THEN cs.ds[j][1] < 0 ELSE cs.ds[j][1] > 0) => Survives(cs.c, cs.ds[j][1], cs.ds[j][2])
+  /\ CosTableSound
+CornerCoverage == IsK("cornercov") =>
+  /\ RequiredClasses \subseteq cs.classes
+  /\ cs.polys = 1..Len(CornerPolys)
 =============================================================================
